@@ -1,5 +1,5 @@
 """C12 - no stale derived state after any sequence of edits; deep copies are independent."""
-import io, contextlib, copy, math, warnings, json
+import io, contextlib, copy, math, warnings, json, random
 from fractions import Fraction as F
 from core import Family, call
 import gal as G
@@ -464,6 +464,71 @@ def fresh_check_geom(ob, k_eff, label):
     return None
 
 
+def reader_check_geom(reader, value, ob, k_eff, label):
+    """the value a getter returned inside the history must be what a freshly built object returns"""
+    df = ob["def"]
+    full = ob["with_eval"]
+    if reader in ("r_eval", "r_tess") and not full:
+        return None
+    try:
+        f = build_geom(df, partial=not full)
+    except Exception:
+        return None
+    if reader == "r_cpw":
+        exp = call(lambda: pl(f.ctrlptsw if f.rational else f.ctrlpts))
+    elif reader == "r_cpts":
+        exp = call(lambda: pl(f.ctrlpts))
+    elif reader == "r_wts":
+        exp = call(lambda: (list(f.weights) if f.weights is not None else None))
+    elif reader == "r_cp2d":
+        exp = call(lambda: [[list(p) for p in row] for row in f.ctrlpts2d])
+    elif reader == "r_bbox":
+        exp = call(lambda: [list(x) for x in f.bbox])
+    elif reader == "r_eval":
+        exp = call(lambda: pl(f.evalpts))
+    elif reader == "r_tess":
+        def ft():
+            f.tessellate(vertex_spacing=k_eff)
+            return tess_view(f)
+        exp = call(ft)
+    else:
+        return None
+    name = {"r_tess": "tessellation read in the history"}.get(reader, reader[2:] + " read in the history")
+    m = cmp_view(name, {"ok": value}, exp)
+    return "%s %s" % (label, m) if m else None
+
+
+def fresh_cont(w, j, delta):
+    c = w.conts[j]
+    fc = type(c)()
+    for i in w.celems[j]:
+        df = read_def(w.geoms[i])
+        fc.add(build_geom(df, partial=not consistent(df)))
+    fc.delta = delta[0] if c.pdimension == 1 else delta
+    return fc
+
+
+def cont_tess_view(c):
+    vs = list(c.vertices)
+    pos = dict((id(v), n) for n, v in enumerate(vs))
+    return [[list(v.data) for v in vs], [[pos.get(id(v), 10 ** 6) for v in f.vertices] for f in c.faces]]
+
+
+def reader_check_cont(w, j, reader, value, ob, label):
+    try:
+        fc = fresh_cont(w, j, ob["delta"])
+    except Exception:
+        return None
+    if reader == "r_eval":
+        exp = call(lambda: pl(fc.evalpts))
+    elif reader == "r_bbox":
+        exp = call(lambda: [list(x) for x in fc.bbox])
+    else:
+        exp = call(cont_tess_view, fc)
+    m = cmp_view("container " + reader[2:] + " read in the history", {"ok": value}, exp)
+    return "%s %s" % (label, m) if m else None
+
+
 def fresh_check_cont(w, j, ob, label):
     c = w.conts[j]
     try:
@@ -597,6 +662,13 @@ def check_prefix(ops, k, results, prev_gobs):
             msg = fresh_check_geom(ob, k_eff_of(ops, k, i, results), "step %d geometry %d:" % (k, i))
             if msg:
                 break
+    res_last = results[k - 1][0] if results else None
+    if not msg and last[0] == "g" and last[2][0] in READERS and last[2][0] != "tessellate" and res_last and "ok" in res_last and last[1] < len(gobs):
+        msg = reader_check_geom(last[2][0], res_last["ok"], gobs[last[1]], k_eff_of(ops, k, last[1], results), "step %d geometry %d:" % (k, last[1]))
+    if not msg and last[0] == "c" and last[2][0].startswith("r_") and res_last and "ok" in res_last and cobs[last[1]] is not None:
+        msg = reader_check_cont(w, last[1], last[2][0], res_last["ok"], cobs[last[1]], "step %d container %d:" % (k, last[1]))
+        if msg:
+            known = known_alias_class(ops, k, w.celems[last[1]], last[1])
     if not msg and last[0] == "g" and prev_gobs is not None:
         for i in range(min(len(prev_gobs), len(gobs))):
             if i == last[1]:
@@ -949,10 +1021,103 @@ def fill_reader(rng, o):
     return rng.choice(r)
 
 
+def mut_templates(rng, df):
+    """one instance of every mutator (per direction where it has one) that is valid for the definition df"""
+    pd, rat = df["pdim"], df["rat"]
+    n = len(df["cp"])
+    dimh = len(df["cp"][0])
+    dim = dimh - (1 if rat else 0)
+    dls = {1: [0.5, 0.25, 0.2, 0.125], 2: [0.5, 0.34, 0.25], 3: [0.5, 0.34]}[pd]
+    smp = {1: [2, 3, 4, 6], 2: [2, 3, 4], 3: [2, 3]}[pd]
+    T = []
+    raw = lambda: (compatibility.combine_ctrlpts_weights(gc.points(rng, n, dim, grid=4, lim=8), gc.weights(rng, n)) if rat
+                   else gc.points(rng, n, dim, grid=4, lim=8))
+    for d in range(pd):
+        T.append(("knots-%s" % SUF[d], [["knots", d, new_kv(rng, df["deg"][d], df["size"][d])]]))
+    T.append(("set_ctrlpts-call", [["set_ctrlpts", raw(), df["size"], "call"]]))
+    T.append(("set_ctrlpts-prop", [["set_ctrlpts", raw(), df["size"], "prop"]]))
+    if pd == 2:
+        T.append(("ctrlpts2d", [["set_ctrlpts", raw(), df["size"], "2d"]]))
+        T.append(("transpose", [["transpose"]]))
+        T.append(("flip", [["flip"]]))
+        T.append(("tessellate-1", [["tessellate", 1]]))
+        T.append(("tessellate-2", [["tessellate", 2]]))
+    if rat:
+        T.append(("ctrlpts", [["ctrlpts", gc.points(rng, n, dim, grid=4, lim=8)]]))
+        T.append(("weights", [["weights", [w * 1.5 for w in gc.weights(rng, n)]]]))
+    for d in [None] + list(range(pd)):
+        cur = df["delta"][d or 0]
+        T.append(("delta-%s" % ("all" if d is None else SUF[d]), [["delta", d, rng.choice([x for x in dls if abs(x - cur) > 1e-9])]]))
+        T.append(("sample-%s" % ("all" if d is None else SUF[d]), [["sample", d, rng.choice([k for k in smp if abs(1.0 / k - cur) > 1e-9])]]))
+    for d in range(pd):
+        U, p = df["kv"][d], df["deg"][d]
+        prm, num = [None] * pd, [0] * pd
+        prm[d], num[d] = rng.choice([k / 16.0 for k in (3, 5, 7, 9, 11, 13)]), 1
+        T.append(("insert-%s" % SUF[d], [["insert", list(prm), list(num)]]))
+        inner = U[p + 1:len(U) - p - 1]
+        if inner:
+            prm2 = [None] * pd
+            prm2[d] = rng.choice(inner)
+            T.append(("remove-%s" % SUF[d], [["remove", prm2, list(num)]]))
+        if n <= 12:
+            dens = [0] * pd
+            dens[d] = 1
+            T.append(("refine-%s" % SUF[d], [["refine", dens]]))
+        cand = [q for q in (1, 2, 3) if q != p and q + 1 <= df["size"][d]]
+        if cand:
+            q = rng.choice(cand)
+            T.append(("degree-%s" % SUF[d], [["degree", d, q], ["knots", d, new_kv(rng, q, df["size"][d])]]))
+    if pd == 1:
+        T.append(("reverse", [["reverse"]]))
+    T.append(("translate", [["translate", [rng.choice([-2.0, -0.5, 0.25, 1.0, 3.0]) for _ in range(dim)]]]))
+    T.append(("scale", [["scale", rng.choice([0.5, 2.0, -1.0, 1.5])]]))
+    T.append(("rotate", [["rotate", rng.choice([30, 45, 90]), 2 if dim == 2 else rng.randrange(3)]]))
+    return T
+
+
+def sweep_cases(rng):
+    """deterministic complement of the random histories: for every class and EVERY mutator (each direction separately):
+    fill all caches, apply the one mutator, read every view again (in two different orders)"""
+    out = []
+    for pd in (1, 2, 3):
+        for rat in (False, True):
+            df0 = rand_def(rng, pd, rat)
+            if pd == 1:
+                while len(df0["kv"][0]) <= 2 * (df0["deg"][0] + 1):     # at least one interior knot (for remove)
+                    df0 = rand_def(rng, pd, rat)
+            fills = (["r_wts"] if rat else []) + ["r_cpts", "r_bbox", "r_eval"] + (["r_tess", "r_cp2d"] if pd == 2 else [])
+            for n, (name, mops) in enumerate(mut_templates(rng, df0)):
+                post = [["r_wts", "r_cpts", "r_eval", "r_bbox", "r_tess", "r_cp2d"], ["r_cpts", "r_wts", "r_bbox", "r_tess", "r_eval"]][n % 2]
+                post = [r for r in post if (rat or r != "r_wts") and (pd == 2 or r not in ("r_tess", "r_cp2d"))]
+                ops = [["new", df0]] + [["g", 0, [r]] for r in fills] + [["g", 0, m] for m in mops] + [["g", 0, [r]] for r in post]
+                out.append({"ops": ops, "kind": "sweep/%s/%s/%s" % (("curve", "surface", "volume")[pd - 1], "rat" if rat else "nonrat", name), "obs": "final"})
+    for pd in (1, 2, 3):
+        d0 = rand_def(rng, pd, pd == 2)
+        dim0 = len(d0["cp"][0]) - (1 if d0["rat"] else 0)
+        d1 = rand_def(rng, pd, pd != 2)
+        while len(d1["cp"][0]) - (1 if d1["rat"] else 0) != dim0:
+            d1 = rand_def(rng, pd, pd != 2)
+        dls = {1: [0.5, 0.25], 2: [0.5, 0.34], 3: [0.5, 0.34]}[pd]
+        reads = ["r_eval", "r_bbox"] + (["r_tess"] if pd == 2 else [])
+        muts = [("add", [["add", 1]]), ("delta", [["delta", dls[1]]]), ("sample", [["sample", 4]]),
+                ("translate", [["translate", [1.0] * dim0]]), ("scale", [["scale", 2.0]])]
+        for d in range(pd if pd > 1 else 0):
+            muts.append(("delta_%s" % SUF[d], [["delta_dir", d, dls[1]]]))
+            muts.append(("sample_size_%s" % SUF[d], [["sample_dir", d, 4]]))
+        for name, mops in muts:
+            ops = [["new", d0], ["new", d1], ["newcont", pd], ["c", 0, ["delta", dls[0]]], ["c", 0, ["add", 0]]]
+            ops += [["c", 0, [r]] for r in reads] + [["c", 0, m] for m in mops] + [["c", 0, [r]] for r in reversed(reads)]
+            out.append({"ops": ops, "kind": "sweep/container%d/%s" % (pd, name), "obs": "final"})
+        ops = [["new", d0], ["new", d1], ["newcont", pd], ["c", 0, ["delta", dls[0]]], ["c", 0, ["add", 0]], ["c", 0, ["add", 1]], ["c", 0, ["r_eval"]],
+               ["ccopy", 0], ["c", 1, ["r_eval"]], ["c", 1, ["delta", dls[1]]], ["c", 1, ["r_eval"]], ["c", 0, ["r_eval"]]]
+        out.append({"ops": ops, "kind": "sweep/container%d/deepcopy" % pd, "obs": "final"})
+    return out
+
+
 class Hist(Family):
     name = "hist"
     imports = ("Model.Weights", "Model.Equal", "Model.Obj", "Model.ObjRun", "Run.ObjH")
-    count = {"quick": 66, "thorough": 160}
+    count = {"quick": 225, "thorough": 320}
     has_oracle = True
     timeout = 120
 
@@ -962,7 +1127,8 @@ class Hist(Family):
         return rng.randint(25, 40) if rng.random() < 0.2 else rng.randint(8, 24)
 
     def gen(self, rng, n):
-        out = []
+        out = quiet(sweep_cases, random.Random(rng.random()))
+        n = max(n - len(out), 40)
         for i in range(n):
             try:
                 out.append(quiet(self._gen_one, rng, i, n))
@@ -1077,10 +1243,11 @@ class Hist(Family):
                 steps[-1]["alldistinct"] = len(set(ids)) == len(ids)
             n = len(ops)
             oracle_msgs, per = check_history(ops, results)
+            final_only = c.get("obs") == "final"
             for k, (gobs, cobs) in enumerate(per, start=1):
                 st = steps[k - 1]
-                gs = list(range(len(gobs))) if k == n else st["fg"]
-                cs = list(range(len(cobs))) if k == n else st["fc"]
+                gs = list(range(len(gobs))) if k == len(per) else ([] if final_only else st["fg"])
+                cs = list(range(len(cobs))) if k == len(per) else ([] if final_only else st["fc"])
                 st["gobs"] = [[i, gobs[i]] for i in gs if i < len(gobs)]
                 st["cobs"] = [[j, cobs[j]] for j in cs if j < len(cobs) and cobs[j] is not None]
             # the observations are kept as one JSON string: millions of small live list objects would make the
